@@ -35,28 +35,41 @@ theorem resident_tables_disjoint (c : Ctx) (cmds : List Cmd) (acts : List Act) (
     s.st.Pairwise fun u v => ∀ b, ¬ ((u.addr ≤ b ∧ b < u.addr + u.size) ∧ (v.addr ≤ b ∧ b < v.addr + v.size)) :=
   (reach_stInv (run_reach cmds {} s acts Reach.init h)).disjoint
 
-/-- no two tracked tables have equal values, and every entry carries the values / size of its tensor object -/
+/-- (code without C03-11) no two tracked tables are equivalent for the pass (equal values; with C03-10: and equal size), and
+    every entry carries the values / size of its tensor object -/
 theorem resident_values_distinct (c : Ctx) (cmds : List Cmd) (acts : List Act) (s : PS) (h : optimize c cmds = .ok (acts, s)) :
-    (s.st.Pairwise fun u v => u.vals ≠ v.vals) ∧ ∀ u ∈ s.st, u.vals = c.vals u.tid ∧ u.size = c.size u.tid :=
+    (c.sticky = false → s.st.Pairwise fun u v => ¬ (u.vals = v.vals ∧ (c.widthAware = true → u.size = v.size))) ∧
+      ∀ u ∈ s.st, u.vals = c.vals u.tid ∧ u.size = c.size u.tid :=
   let i := reach_stInv (run_reach cmds {} s acts Reach.init h)
   ⟨i.distinct, i.fromCtx⟩
 
-/-- with the sizes of the property every tracked table lies inside the window on a multiple of its own size -/
-theorem resident_tables_in_window (c : Ctx) (hsz : Sizes c) (cmds : List Cmd) (acts : List Act) (s : PS)
-    (h : optimize c cmds = .ok (acts, s)) :
+/-- with the sizes of the property every tracked table lies inside the window on a multiple of its own size (for the code
+    with C03-11 but without C03-10 only if equal values imply equal sizes: a table "found" in another width keeps its place) -/
+theorem resident_tables_in_window (c : Ctx) (hsz : Sizes c) (hgeo : c.sticky = true → SameSizeIfEquiv c) (cmds : List Cmd)
+    (acts : List Act) (s : PS) (h : optimize c cmds = .ok (acts, s)) :
     ∀ u ∈ s.st, c.lutStart ≤ u.addr ∧ u.addr + u.size ≤ c.lutStart + c.lutSize ∧ (u.addr - c.lutStart) % u.size = 0 :=
-  fun u hu => let ⟨a, b, d, _⟩ := reach_inWin hsz (run_reach cmds {} s acts Reach.init h) u hu; ⟨a, b, d⟩
+  fun u hu => let ⟨a, b, d, _⟩ := (reach_geo hsz hgeo (run_reach cmds {} s acts Reach.init h)).inWin u hu; ⟨a, b, d⟩
 
 /-- the pass never raises on these sizes -/
 theorem optimize_total (c : Ctx) (hsz : Sizes c) (cmds : List Cmd) : ∃ r, optimize c cmds = .ok r := run_total hsz cmds {}
 
-/-- the copy of the address in the model's list is the address of the object: a tensor object that is in the list is
-    never placed again, and "assigning" it the found address changes nothing (see `Model/LutState.lean`, second item) -/
-theorem state_entries_never_reassigned (c : Ctx) (pre : List Cmd) (acts : List Act) (s : PS) (h : optimize c pre = .ok (acts, s))
-    (u : Tab) (hu : u ∈ s.st) (p : Nat) :
+/-- (code without C03-11) the copy of the address in the model's list is the address of the object: a tensor object that is
+    in the list is never placed again, and "assigning" it the found address changes nothing (see `Model/LutState.lean`,
+    second item) -/
+theorem state_entries_never_reassigned (c : Ctx) (hst : c.sticky = false) (pre : List Cmd) (acts : List Act) (s : PS)
+    (h : optimize c pre = .ok (acts, s)) (u : Tab) (hu : u ∈ s.st) (p : Nat) :
     ∃ s', step c s (.lutDma p u.tid) = .ok (s', .dropped u u.addr ((u.addr - c.lutStart) / slotSize)) ∧ s'.st = s.st ∧
       lookup s'.env.addr u.tid = some u.addr :=
-  assign_keeps_state (run_reach pre {} s acts Reach.init h) hu p
+  assign_keeps_state hst (run_reach pre {} s acts Reach.init h) hu p
+
+/-- (code with C03-11) a tensor object has one address for the whole stream, the tracked entries carry it, and every
+    pass one index — whatever the stream, as long as every table DMA loads its own pass's table -/
+theorem sticky_addresses_never_change (c : Ctx) (r : Refine) (hst : c.sticky = true) (cmds : List Cmd) (hown : DmaOwn r cmds)
+    (acts : List Act) (s : PS) (h : optimize c cmds = .ok (acts, s)) :
+    (∀ t a a', (t, a) ∈ s.env.addr → (t, a') ∈ s.env.addr → a = a') ∧ (∀ u ∈ s.st, (u.tid, u.addr) ∈ s.env.addr) ∧
+      stable s.env = true :=
+  let k := run_sticky hst cmds {} s acts (sticky_init c r) hown h
+  ⟨k.one, k.entries, sticky_stable hst hown h⟩
 
 /-! ## (b) the optimised stream against the byte-level window -/
 
@@ -67,7 +80,7 @@ theorem state_entries_never_reassigned (c : Ctx) (pre : List Cmd) (acts : List A
 theorem optimised_refines_original_at_decision (c : Ctx) (r : Refine) (hsz : Sizes c) (hcb : EqualValuesEqualBytes c r)
     (hpa : PassesAgree c r) (cmds : List Cmd) (horig : OrigOk c r none cmds) :
     StreamOk (geomOf c) Window.empty (eventsAt c r {} cmds) :=
-  eventsAt_ok hsz hcb hpa cmds {} Window.empty none (inv_nil c r {} _) horig
+  eventsAt_ok hsz hcb hpa cmds {} Window.empty none (inv_nil c r {} _ (fun _ h => absurd h List.not_mem_nil)) horig
 
 /-- **dropped_dma_sound_partial.** The same for what the later stages program (`eventsFinal`: the address each tensor
     object and the index each operation hold after the pass), when no assignment of the pass was overwritten (`stable`).
@@ -78,6 +91,16 @@ theorem dropped_dma_sound_partial (c : Ctx) (r : Refine) (hsz : Sizes c) (hcb : 
     StreamOk (geomOf c) Window.empty (eventsFinal c r sf.env cmds acts) := by
   rw [eventsFinal_eq_eventsAt hpa hst cmds {} sf acts none hrun (fun _ h => h) (fun _ h => h) (fun _ _ h => nomatch h) horig]
   exact optimised_refines_original_at_decision c r hsz hcb hpa cmds horig
+
+/-- **dropped_dma_sound_repaired.** The full statement holds of the code with repair C03-11 (`sticky`): for every stream
+    whose table DMAs load their own pass's table, what the later stages program is fine. With C03-10 as well
+    (`widthAware`) the hypothesis `EqualValuesEqualBytes` is only what is assumed of real tensors (equal numbers in equal
+    element width are equal bytes). -/
+theorem dropped_dma_sound_repaired (c : Ctx) (r : Refine) (hst : c.sticky = true) (hsz : Sizes c) (hcb : EqualValuesEqualBytes c r)
+    (hpa : PassesAgree c r) (cmds : List Cmd) (horig : OrigOk c r none cmds) (hown : DmaOwn r cmds) :
+    ∃ acts sf, optimize c cmds = .ok (acts, sf) ∧ StreamOk (geomOf c) Window.empty (eventsFinal c r sf.env cmds acts) := by
+  obtain ⟨⟨acts, sf⟩, hrun⟩ := optimize_total c hsz cmds
+  exact ⟨acts, sf, hrun, dropped_dma_sound_partial c r hsz hcb hpa cmds acts sf horig hrun (sticky_stable hst hown hrun)⟩
 
 /-- **dropped_dma_sound_single_dma.** A syntactic case in which nothing can be reassigned: no tensor object and no pass
     occurs in two table DMAs of the stream (one horizontal stripe per operation with a table, one clone of the table per
@@ -139,12 +162,22 @@ theorem dropped_dma_sound_witness_reassigned :
       lookup sf.env.addr 1 = some 22528 ∧ acts[2]? = some (.placed 22784 1) ∧ acts[4]? = some (.dropped ⟨0, 0, 256, 22528⟩ 22528 0) ∧
       ¬ StreamOk (geomOf w2Ctx) Window.empty (eventsFinal w2Ctx w2Ref sf.env w2Cmds acts) := by
   have hsz : Sizes w2Ctx := ⟨rfl, fun t => by simp only [w2Ctx]; split <;> simp⟩
-  have hcb : EqualValuesEqualBytes w2Ctx w2Ref := fun t u h => by simp only [w2Ctx] at h; subst h; exact ⟨rfl, rfl⟩
+  have hcb : EqualValuesEqualBytes w2Ctx w2Ref := fun t u h _ => by simp only [w2Ctx] at h; subst h; exact ⟨rfl, rfl⟩
   have hpa : PassesAgree w2Ctx w2Ref := fun _ => rfl
   have horig : OrigOk w2Ctx w2Ref none w2Cmds := (origOkB_iff _ _ _ _).1 (by decide)
   refine ⟨hsz, hcb, hpa, horig, optimised_refines_original_at_decision _ _ hsz hcb hpa _ horig, _, _, rfl, by decide, by decide,
     by decide, by decide, ?_⟩
   rw [← streamOkB_iff]; decide +kernel
+
+/-- the repairs on the two witnesses: with C03-10 the 1 KiB table of witness 1 is loaded (upper half, index 4), with C03-11
+    table 1 of witness 2 is loaded the second time where it was the first time; the Spec accepts both final streams -/
+example : ∃ acts sf, optimize { w1Ctx with widthAware := true } w1Cmds = .ok (acts, sf) ∧ acts[2]? = some (.placed 23552 4) ∧
+    streamOkB (geomOf w1Ctx) Window.empty (eventsFinal w1Ctx w1Ref sf.env w1Cmds acts) = true :=
+  ⟨_, _, rfl, by decide, by decide +kernel⟩
+
+example : ∃ acts sf, optimize { w2Ctx with sticky := true } w2Cmds = .ok (acts, sf) ∧ acts[8]? = some (.placed 22784 1) ∧
+    stable sf.env = true ∧ streamOkB (geomOf w2Ctx) Window.empty (eventsFinal w2Ctx w2Ref sf.env w2Cmds acts) = true :=
+  ⟨_, _, rfl, by decide, by decide, by decide +kernel⟩
 
 /-! ## (c) the table index -/
 
@@ -152,15 +185,16 @@ theorem dropped_dma_sound_witness_reassigned :
     `t.address = a` and `lut_index = i` with `a = lutStart + 256·i`, `i = (a − lutStart) / 256 < 8` — for a newly placed
     table (which lies in the window on a multiple of its size) and for a reused one (which gets the address of the
     resident table with equal values). -/
-theorem index_is_offset_div_256 (c : Ctx) (hsz : Sizes c) (pre : List Cmd) (acts : List Act) (s : PS)
-    (hpre : optimize c pre = .ok (acts, s)) (p t : Nat) (s' : PS) (act : Act) (hs : step c s (.lutDma p t) = .ok (s', act)) :
+theorem index_is_offset_div_256 (c : Ctx) (hsz : Sizes c) (hgeo : c.sticky = true → SameSizeIfEquiv c) (pre : List Cmd)
+    (acts : List Act) (s : PS) (hpre : optimize c pre = .ok (acts, s)) (p t : Nat) (s' : PS) (act : Act)
+    (hs : step c s (.lutDma p t) = .ok (s', act)) :
     ∃ a i, lookup s'.env.addr t = some a ∧ lookup s'.env.idx p = some i ∧ a = c.lutStart + 256 * i ∧ i < 8 ∧
       i = (a - c.lutStart) / 256 ∧
       ((act = .placed a i ∧ a + c.size t ≤ c.lutStart + c.lutSize ∧ (a - c.lutStart) % c.size t = 0 ∧
-          s'.st = put s.st (mkTab c t a) ∧ getEquivalent s.st (c.vals t) = none) ∨
-       (∃ e, act = .dropped e a i ∧ e ∈ s.st ∧ e.vals = c.vals t ∧ e.addr = a ∧ getEquivalent s.st (c.vals t) = some e ∧
+          s'.st = put s.st (mkTab c t a) ∧ findReusable c s t = none) ∨
+       (∃ e, act = .dropped e a i ∧ e ∈ s.st ∧ e.vals = c.vals t ∧ e.addr = a ∧ findReusable c s t = some e ∧
           s'.st = s.st)) :=
-  lutDma_decision hsz (run_reach pre {} s acts Reach.init hpre) hs
+  lutDma_decision hsz hgeo (run_reach pre {} s acts Reach.init hpre) hs
 
 /-- what `get_lut_index` (offset / table size; not called by the pass since /repo b335255) gives for a table on a
     multiple of its size inside the window: the number of the table-sized slot, which is the hardware index exactly for
@@ -191,8 +225,10 @@ theorem reset_rule_sound (c : Ctx) (hsz : Sizes c) (s : PS) (p q t : Nat) (hp : 
       ∃ s2 a i, step c s1 (.lutDma q t) = .ok (s2, .placed a i) ∧ s2.st = [mkTab c t a] := by
   refine ⟨{ s with st := [] }, by simp [step, hp, hr], rfl, ?_⟩
   have hne : c.size t ≠ 0 := by rcases hsz.2 t with e | e | e | e <;> omega
-  simp only [step, getEquivalent, List.find?_nil, findBestAddress, hne, if_false, put, List.filter_nil]
-  exact ⟨_, _, _, rfl, rfl⟩
+  simp only [step, findReusable, getEquiv, List.find?_nil]
+  cases hp : prevAddr c { s with st := [] } t with
+  | some a => simp only [chooseAddr, hp, put, List.filter_nil]; exact ⟨_, _, _, rfl, rfl⟩
+  | none => simp only [chooseAddr, hp, findBestAddress, hne, if_false, put, List.filter_nil]; exact ⟨_, _, _, rfl, rfl⟩
 
 /-- **no_reset_with_reserved_banks.** On a configuration with reserved banks no kernel changes the tracked state — sound
     because there the window lies outside the SHRAM a kernel may use (`Spec/LutWindow.lean` `clobbers`, hand-written per
@@ -224,7 +260,7 @@ def exRef : Refine := { content := fun t => t % 5, passTab := fun p => if p % 7 
 
 theorem ex_hyps (reserved lutStart : Nat) :
     Sizes (exCtx reserved lutStart) ∧ EqualValuesEqualBytes (exCtx reserved lutStart) exRef ∧ PassesAgree (exCtx reserved lutStart) exRef := by
-  refine ⟨⟨rfl, fun t => ?_⟩, fun t u h => ?_, fun p => ?_⟩
+  refine ⟨⟨rfl, fun t => ?_⟩, fun t u h _ => ?_, fun p => ?_⟩
   · simp only [exCtx]; repeat' split
     all_goals simp
   · simp only [exCtx, exRef] at h ⊢; rw [h]; exact ⟨rfl, rfl⟩
